@@ -90,23 +90,36 @@ class LDMMaintenance:
 
         return provider_data
 
-    def update_provider_data(self, data_object_id: int, data_object: dict) -> None:
+    def update_provider_data(self, data_object_id: int, data_object: dict) -> int | None:
         """
-        Method created in order to update data from the data containers.
+        Method created in order to update data from the data containers. Only the data object of the
+        stored data container is replaced; its timestamp, location and time validity are kept.
 
         Parameters
         ----------
         data_object_id : int
         data_object : dict
+
+        Returns
+        -------
+        int | None
+            The data object id if the data container has been updated, None otherwise.
         """
         try:
+            data_container = self.data_containers.get(index=data_object_id)
+            if data_container is None:
+                return None
+            updated_data_container = dict(data_container)
+            updated_data_container["dataObject"] = data_object
             self.data_containers.update(
-                data_object,
+                updated_data_container,
                 index=data_object_id,
             )
             self.logging.debug("Data container updated: %s", data_object_id)
         except (KeyError, json.decoder.JSONDecodeError) as e:
             print(f"Error updating data container: {str(e)}")
+            return None
+        return data_object_id
 
     def del_provider_data(self, data_object: dict) -> None:
         """
